@@ -38,14 +38,14 @@ type rec struct {
 
 type tagged struct {
 	A    uint64
-	Skip uint32 `rlp:"-"`
-	hid  uint32 // unexported: not part of the encoding
-	P    *[3]byte  `rlp:"nil"`
-	Q    *uint     `rlp:"nil"`
-	L    *[]uint   `rlp:"nil"`
-	S    *simple   `rlp:"nil"`
-	G    *big.Int  `rlp:"nil"`
-	Rest []uint    `rlp:"tail"`
+	Skip uint32   `rlp:"-"`
+	hid  uint32   // unexported: not part of the encoding
+	P    *[3]byte `rlp:"nil"`
+	Q    *uint    `rlp:"nil"`
+	L    *[]uint  `rlp:"nil"`
+	S    *simple  `rlp:"nil"`
+	G    *big.Int `rlp:"nil"`
+	Rest []uint   `rlp:"tail"`
 }
 
 type rawPair struct {
@@ -64,10 +64,10 @@ type arr1Pair struct {
 }
 
 type nilPtrs struct {
-	A *uint     `rlp:"nil"`
-	B *[]uint   `rlp:"nil"`
-	C *[2]byte  `rlp:"nil"`
-	D *simple   `rlp:"nil"`
+	A *uint    `rlp:"nil"`
+	B *[]uint  `rlp:"nil"`
+	C *[2]byte `rlp:"nil"`
+	D *simple  `rlp:"nil"`
 }
 
 // custom has a hand-written codec: it travels as the list [B, A] (fields
@@ -104,8 +104,6 @@ type everything struct {
 	Y   []simple
 	Z   [][]byte
 	W   []string
-	N   [4]myByte
-	M   []myByte
 	B   bool
 	I   *big.Int
 	J   big.Int
@@ -508,4 +506,14 @@ var refOpts = &refrlp.Opts{
 			return reflect.ValueOf(customWire{B: b, A: c.A}), nil
 		},
 	},
+}
+
+// diagnosis variants of refOpts (see refrlp.Opts); they share the maps.
+var optsLenientRaw, optsLenientNil *refrlp.Opts
+
+func lenientOpts() {
+	a, b := *refOpts, *refOpts
+	a.LenientRawByte = true
+	b.LenientNilKind = true
+	optsLenientRaw, optsLenientNil = &a, &b
 }
